@@ -661,6 +661,61 @@ Proof.
   vm_compute. repeat split.
 Qed.
 
+(* ---------------- transform(a=f, b=g, ...) as a whole (Inst/RefineMore4.v) ---------------- *)
+(* every per-attribute transform is covered by `kwfn_ok` in the receiver's state: managed
+   non-collection attribute with a pool preparer, f from the pool, current value (the
+   instance's or the class-level one) a proper scalar.  The model's final state is the
+   specification's fold (each transform reads the value left by the previous ones, stores
+   prepare(f(old))); a failure has the class of the first failing step. *)
+Theorem C05_transform_top_refines_partial : forall ct h0 l c d k s p0 ps,
+  nth_error (heap s) l = Some (OInst c d) -> lookup_cls ct c = Some k ->
+  NoDup (map fst d) -> aok (absv (heap s) (VRef l)) = true ->
+  c_frozen k = false -> no_inval k -> fail_at s = None ->
+  forallb (kwfn_ok k d) (p0 :: ps) = true ->
+  let h := mkh [] true true VMissing false None None (p0 :: ps) None in
+  let ah := mkah [] true true AMissing false None None (p0 :: ps) None in
+  match run_helper ct l HTransformTop h s with
+  | (Ok r, s') => r = VRef l /\
+                  spec_helper ct h0 (absv (heap s) (VRef l)) STransformTop ah = SOk (absv (heap s') (VRef l)) /\
+                  (forall i, i <> l -> nth_error (heap s') i = nth_error (heap s) i)
+  | (Err e, s') => spec_helper ct h0 (absv (heap s) (VRef l)) STransformTop ah = SErr e /\
+                   (forall i, i <> l -> nth_error (heap s') i = nth_error (heap s) i)
+  end.
+Proof.
+  intros ct h0 l c d k s p0 ps Hl Hc Hd Hok Hfz Hni Hfa Hkws.
+  exact (transform_top_inplace_refines ct h0 l c d k s Hl Hc Hd Hfz Hni Hfa p0 ps Hok Hkws).
+Qed.
+
+Theorem C05_transform_top_copy_refines_partial : forall ct h0 l c d k s p0 ps,
+  nth_error (heap s) l = Some (OInst c d) -> lookup_cls ct c = Some k ->
+  NoDup (map fst d) -> flat_fields (heap s) d ->
+  c_dnc k = false -> c_frozen k = false -> no_inval k -> fail_at s = None -> c_post_copy k = None ->
+  forallb (kwfn_ok k d) (p0 :: ps) = true ->
+  let h := mkh [] false true VMissing false None None (p0 :: ps) None in
+  let ah := mkah [] false true AMissing false None None (p0 :: ps) None in
+  match run_helper ct l HTransformTop h s with
+  | (Ok r, s') => exists l', r = VRef l' /\ length (heap s) <= l' /\
+                  spec_helper ct h0 (absv (heap s) (VRef l)) STransformTop ah = SOk (absv (heap s') (VRef l')) /\
+                  (forall i, i < length (heap s) -> nth_error (heap s') i = nth_error (heap s) i)
+  | (Err e, s') => spec_helper ct h0 (absv (heap s) (VRef l)) STransformTop ah = SErr e /\
+                   (forall i, i < length (heap s) -> nth_error (heap s') i = nth_error (heap s) i)
+  end.
+Proof.
+  intros ct h0 l c d k s p0 ps Hl Hc Hd Hflat Hdnc Hfz Hni Hfa Hpc Hkws.
+  exact (transform_top_copy_unfrozen ct h0 l c d k s Hl Hc Hd Hfz Hni Hfa p0 ps Hflat Hdnc Hpc Hkws).
+Qed.
+
+Example C05_example_transform_top :
+  forallb (kwfn_ok ex_k2 [(1, VInt 7); (3, VInt 9)]) [(1, FAddInt 10); (3, FConst VNone); (1, FId)] = true /\
+  (* a1: 7 -> 18 -> prepare(18) = 19 (the second transform of a1 sees the first one's result) *)
+  (let '(r, s') := run_helper ex_ct2 0 HTransformTop
+                     (mkh [] true true VMissing false None None [(1, FAddInt 10); (3, FConst VNone); (1, FId)] None) ex_state2 in
+   r = Ok (VRef 0) /\ nth_error (heap s') 0 = Some (OInst 2 [(1, VInt 19); (3, VNone)])) /\
+  spec_helper ex_ct2 [] (absv (heap ex_state2) (VRef 0)) STransformTop
+              (mkah [] true true AMissing false None None [(1, FAddInt 10); (3, FConst VNone); (1, FId)] None)
+    = SOk (AInst 2 [(1, AInt 19); (3, ANone)]).
+Proof. vm_compute. repeat split. Qed.
+
 Print Assumptions C05_noop_if_false.
 Print Assumptions C05_noop_with_unchanged.
 Print Assumptions C05_noop_update_unchanged.
@@ -696,3 +751,6 @@ Print Assumptions C05_example_inval.
 Print Assumptions C05_reset_top_refines_partial.
 Print Assumptions C05_reset_top_copy_refines_partial.
 Print Assumptions C05_example_reset_top.
+Print Assumptions C05_transform_top_refines_partial.
+Print Assumptions C05_transform_top_copy_refines_partial.
+Print Assumptions C05_example_transform_top.
